@@ -148,12 +148,6 @@ func main() {
 	cacheCtx, writeFn, wrapped := "", "", ""
 	lenGuard, convertOnCache := false, false
 	convertIdx, errTestIdx, writeIdx, writeCalls := -1, -1, -1, 0
-	ast.Inspect(hk.Body, func(n ast.Node) bool {
-		if c, ok := n.(*ast.CallExpr); ok && writeFn != "" && isIdent(c.Fun, writeFn) {
-			writeCalls++
-		}
-		return true
-	})
 	for i, st := range hk.Body.List {
 		switch s := st.(type) {
 		case *ast.AssignStmt:
@@ -202,9 +196,6 @@ func main() {
 	ast.Inspect(hk.Body, func(n ast.Node) bool {
 		if c, ok := n.(*ast.CallExpr); ok && writeFn != "" && isIdent(c.Fun, writeFn) {
 			writeCalls++
-		}
-		if id, ok := n.(*ast.Ident); ok && writeFn != "" && id.Name == writeFn {
-			_ = id
 		}
 		return true
 	})
